@@ -3,6 +3,8 @@
 use serde_json::{json, Value};
 use std::time::{Duration, Instant};
 
+mod corpus;
+mod iter;
 mod state_ops;
 
 pub struct Budget {
@@ -26,6 +28,7 @@ pub trait Family {
 fn family(name: &str) -> Option<Box<dyn Family>> {
     match name {
         "state_ops" => Some(Box::new(state_ops::StateOps)),
+        "iter" => Some(Box::new(iter::Iter)),
         _ => None,
     }
 }
